@@ -365,6 +365,10 @@ func (c *Constraint) matchesPermanodeTypes() []string {
 			}
 			return sb
 		case "or":
+			if len(sa) == 0 || len(sb) == 0 {
+				// One side may match permanodes of any type.
+				return nil
+			}
 			return append(sa, sb...)
 		}
 	}
